@@ -9,7 +9,7 @@ from .spec import SSet
 from .engine import HSetList, HMap, HIter, SObj, HSymList
 
 NATIVE = False
-NATIVE_RANGE = range(-2, 40)
+NATIVE_RANGE = range(-2, 30)
 
 INTERESTING_BYTES = [0, 1, 2, 3, 0x3f, 0x40, 0x41, 0x7f, 0x80, 0x81, 0xbf, 0xc0, 0xfe, 0xff, 8, 16, 90, 100, 110, 144]
 
@@ -225,8 +225,8 @@ class IdTuple(Maker):
 
     def examples(self, rng, n):
         out = []
-        for _ in range(10):
-            L = rng.randint(self.minlen, self.maxlen)
+        for _ in range(14):
+            L = rng.randint(0, 3)      # the native search is not limited to the bound of the symbolic proof
             out.append(tuple(self.base + rng.randint(0, 2) for _ in range(L)))
         return out
 
